@@ -29,6 +29,23 @@ func TestVerifRaceME(t *testing.T) {
 		budget, runs = 1500*time.Millisecond, int64(len(cfgs))*4
 	}
 	names := []string{"A", "B", "C", "D"}
+	// construction with a recovery timeout so short that the per-endpoint
+	// timers fire while the constructor is still running
+	if env.Batch == 0 {
+		n := 300
+		for i := 0; i < n; i++ {
+			me, err := NewMultiEndpoint(&MultiEndpointOptions{Endpoints: names, RecoveryTimeout: time.Duration(1 + i%3), SwitchingDelay: time.Duration(i % 2)})
+			// deliberately no call on me here: any lock operation of this
+			// goroutine would order the constructor's writes before the timer
+			// callbacks and hide an unsynchronised constructor
+			_, _ = me, err
+			if i%50 == 0 {
+				time.Sleep(200 * time.Microsecond)
+			}
+		}
+		time.Sleep(5 * time.Millisecond)
+		out.hitN("C10.me-constructions", int64(n))
+	}
 	for _, idx := range env.vCases(runs) {
 		cfg := cfgs[idx%int64(len(cfgs))]
 		me, err := NewMultiEndpoint(&MultiEndpointOptions{Endpoints: []string{"A", "B", "C"}, RecoveryTimeout: cfg[0] * time.Millisecond, SwitchingDelay: cfg[1] * time.Millisecond})
